@@ -113,6 +113,10 @@ class Runner:
         self.input_sleep = self.__class__.input_sleep
         #: Whether pty fallback warning has been emitted.
         self.warned_about_pty_fallback = False
+        #: Whether the current/most recent run uses a pty; determined per run
+        #: (set here so that cleanup after an early failure, e.g. a rejected
+        #: option, does not trip over a missing attribute).
+        self.using_pty = False
         #: A list of `.StreamWatcher` instances for use by `respond`. Is filled
         #: in at runtime by `run`.
         self.watchers: List["StreamWatcher"] = []
